@@ -189,8 +189,10 @@ func (w *monWorld) arrive(m *api.Metric) {
 		panic("harness: LogMetric: " + err.Error())
 	}
 }
-func (w *monWorld) removePeer(peer.ID) { panic("harness: removePeer is not an event of the monitor world") }
-func (w *monWorld) check()             { panic("harness: check is not an event of the monitor world") }
+func (w *monWorld) removePeer(peer.ID) {
+	panic("harness: removePeer is not an event of the monitor world")
+}
+func (w *monWorld) check() { panic("harness: check is not an event of the monitor world") }
 func (w *monWorld) setPeerset(ps []peer.ID) {
 	w.mu.Lock()
 	w.peers = ps
